@@ -194,13 +194,13 @@ func run(c Case) ([]vk.Violation, vk.Info) {
 		at int // collections that preceded the creation
 	}
 	birth := map[string]born{}
-	for i, d := range syncDefs {
+	for i, d := range w.sdefs {
 		if w.createdAt[i] >= 0 {
-			birth[d.name] = born{w.syncBr[i], w.createdAt[i]}
+			birth[d.key] = born{w.syncBr[i], w.createdAt[i]}
 		}
 	}
-	for _, d := range obsDefs {
-		birth[d.name] = born{w.obsBr, 0}
+	for _, d := range w.odefs {
+		birth[d.key] = born{w.obsBr, 0}
 	}
 	prevD := -1 // the most recent earlier cycle in which the delta reader collected
 	for k, cy := range w.cycles {
@@ -266,16 +266,16 @@ func run(c Case) ([]vk.Violation, vk.Info) {
 		lastSeen[key] = k
 		return ok && k-l >= 2
 	}
-	for i, d := range syncDefs {
+	for i, d := range w.sdefs {
 		wantType := map[syncKind]string{kCounter: "sum", kUpDown: "sum", kHist: "hist", kExpo: "expo", kGauge: "gauge"}[d.kind]
 		tot := map[int]*running{}
 		for k, cy := range w.cycles {
 			var ds, cs *series
 			if cy.Delta != nil {
-				ds = cy.Delta.Series[d.name]
+				ds = cy.Delta.Series[d.key]
 			}
 			if cy.Cum != nil {
-				cs = cy.Cum.Series[d.name]
+				cs = cy.Cum.Series[d.key]
 			}
 			both := []readerSeries{}
 			if cy.Delta != nil {
@@ -287,7 +287,7 @@ func run(c Case) ([]vk.Violation, vk.Info) {
 			for _, rs := range both {
 				who, se := rs.who, rs.se
 				if se != nil && se.Type != wantType {
-					bad("unexpected_data_type", "collection %d: %s reader reports %s as %s, want %s", k+1, who, d.name, se.Type, wantType)
+					bad("unexpected_data_type", "collection %d: %s reader reports %s as %s, want %s", k+1, who, d.key, se.Type, wantType)
 				}
 			}
 			if (ds != nil && ds.Type != wantType) || (cs != nil && cs.Type != wantType) {
@@ -305,9 +305,9 @@ func run(c Case) ([]vk.Violation, vk.Info) {
 							p = se.Pts[set]
 						}
 						if p == nil {
-							bad("gauge_missing", "collection %d: %s reader does not report %s set #%d although %v was recorded in the cycle", k+1, who, d.name, set, vals)
+							bad("gauge_missing", "collection %d: %s reader does not report %s set #%d although %v was recorded in the cycle", k+1, who, d.key, set, vals)
 						} else if !p.Val.eq(last) {
-							bad("gauge_last_value", "collection %d: %s reader reports %s set #%d = %v, last value recorded in the cycle is %v (cycle: %v)", k+1, who, d.name, set, p.Val, last, vals)
+							bad("gauge_last_value", "collection %d: %s reader reports %s set #%d = %v, last value recorded in the cycle is %v (cycle: %v)", k+1, who, d.key, set, p.Val, last, vals)
 						}
 					}
 				}
@@ -317,7 +317,7 @@ func run(c Case) ([]vk.Violation, vk.Info) {
 			if ds != nil {
 				for _, set := range keys(ds.Pts) {
 					p := ds.Pts[set]
-					if gapThenBack(streamKey{d.name, set}, k) {
+					if gapThenBack(streamKey{d.key, set}, k) {
 						reappearSync = true
 					}
 					r := tot[set]
@@ -351,7 +351,7 @@ func run(c Case) ([]vk.Violation, vk.Info) {
 								r.buckets = make([]uint64, len(p.Buckets))
 							}
 							if !sameF64s(r.bounds, p.Bounds) || len(r.buckets) != len(p.Buckets) {
-								bad("histogram_bounds_changed", "collection %d: delta %s set #%d has bounds %v (%d buckets), earlier %v (%d)", k+1, d.name, set, p.Bounds, len(p.Buckets), r.bounds, len(r.buckets))
+								bad("histogram_bounds_changed", "collection %d: delta %s set #%d has bounds %v (%d buckets), earlier %v (%d)", k+1, d.key, set, p.Bounds, len(p.Buckets), r.bounds, len(r.buckets))
 							} else {
 								for b, n := range p.Buckets {
 									r.buckets[b] += n
@@ -376,7 +376,7 @@ func run(c Case) ([]vk.Violation, vk.Info) {
 						}
 					}
 					if cy.Cum != nil && (cs == nil || cs.Pts[set] == nil) {
-						bad("delta_without_cumulative", "collection %d: delta reader reports %s set #%d but the cumulative reader does not", k+1, d.name, set)
+						bad("delta_without_cumulative", "collection %d: delta reader reports %s set #%d but the cumulative reader does not", k+1, d.key, set)
 					}
 				}
 			}
@@ -388,35 +388,35 @@ func run(c Case) ([]vk.Violation, vk.Info) {
 				p := cs.Pts[set]
 				r := tot[set]
 				if r == nil || !r.any {
-					bad("cumulative_without_delta", "collection %d: cumulative reader reports %s set #%d, the delta reader never did", k+1, d.name, set)
+					bad("cumulative_without_delta", "collection %d: cumulative reader reports %s set #%d, the delta reader never did", k+1, d.key, set)
 					continue
 				}
 				switch d.kind {
 				case kCounter, kUpDown:
 					if !p.Val.eq(r.val) {
-						bad("sum_running_total", "collection %d: cumulative %s set #%d = %v, running total of the deltas = %v", k+1, d.name, set, p.Val, r.val)
+						bad("sum_running_total", "collection %d: cumulative %s set #%d = %v, running total of the deltas = %v", k+1, d.key, set, p.Val, r.val)
 					}
 				case kHist, kExpo:
 					if p.Count != r.count {
-						bad("histogram_count_running_total", "collection %d: cumulative %s set #%d Count = %d, running total of the deltas = %d", k+1, d.name, set, p.Count, r.count)
+						bad("histogram_count_running_total", "collection %d: cumulative %s set #%d Count = %d, running total of the deltas = %d", k+1, d.key, set, p.Count, r.count)
 					}
 					if !p.Sum.eq(r.sum) {
-						bad("histogram_sum_running_total", "collection %d: cumulative %s set #%d Sum = %v, running total of the deltas = %v", k+1, d.name, set, p.Sum, r.sum)
+						bad("histogram_sum_running_total", "collection %d: cumulative %s set #%d Sum = %v, running total of the deltas = %v", k+1, d.key, set, p.Sum, r.sum)
 					}
 					if p.HasMin != r.hasMinMax || p.HasMax != r.hasMinMax || (r.hasMinMax && (!p.Min.eq(r.min) || !p.Max.eq(r.max))) {
-						bad("histogram_minmax", "collection %d: cumulative %s set #%d Min/Max = %v(%v)/%v(%v), over the deltas %v/%v (%v)", k+1, d.name, set, p.Min, p.HasMin, p.Max, p.HasMax, r.min, r.max, r.hasMinMax)
+						bad("histogram_minmax", "collection %d: cumulative %s set #%d Min/Max = %v(%v)/%v(%v), over the deltas %v/%v (%v)", k+1, d.key, set, p.Min, p.HasMin, p.Max, p.HasMax, r.min, r.max, r.hasMinMax)
 					}
 					if d.kind == kHist {
 						if !sameF64s(p.Bounds, r.bounds) {
-							bad("histogram_bounds_differ", "collection %d: cumulative %s set #%d bounds %v, delta bounds %v", k+1, d.name, set, p.Bounds, r.bounds)
+							bad("histogram_bounds_differ", "collection %d: cumulative %s set #%d bounds %v, delta bounds %v", k+1, d.key, set, p.Bounds, r.bounds)
 						}
 						// every bucket, and the same number of buckets
 						if len(p.Buckets) != len(r.buckets) || !reflect.DeepEqual(p.Buckets, r.buckets) {
-							bad("histogram_buckets_running_total", "collection %d: cumulative %s set #%d BucketCounts = %v (%d buckets), running total of the deltas = %v (%d buckets)", k+1, d.name, set, p.Buckets, len(p.Buckets), r.buckets, len(r.buckets))
+							bad("histogram_buckets_running_total", "collection %d: cumulative %s set #%d BucketCounts = %v (%d buckets), running total of the deltas = %v (%d buckets)", k+1, d.key, set, p.Buckets, len(p.Buckets), r.buckets, len(r.buckets))
 						}
 					} else {
 						if p.Zero != r.zero {
-							bad("expo_zero_running_total", "collection %d: cumulative %s set #%d ZeroCount = %d, running total of the deltas = %d", k+1, d.name, set, p.Zero, r.zero)
+							bad("expo_zero_running_total", "collection %d: cumulative %s set #%d ZeroCount = %d, running total of the deltas = %d", k+1, d.key, set, p.Zero, r.zero)
 						}
 						if r.unsafeExpo {
 							continue
@@ -428,7 +428,7 @@ func run(c Case) ([]vk.Violation, vk.Info) {
 						rp, rn := rebin(r.expo.pos, r.expo.scale, to), rebin(r.expo.neg, r.expo.scale, to)
 						if !sameBuckets(cp, rp) || !sameBuckets(cn, rn) {
 							bad("expo_buckets_running_total", "collection %d: cumulative %s set #%d (scale %d) buckets at scale %d: +%v -%v; running total of the deltas (scale %d): +%v -%v",
-								k+1, d.name, set, p.Scale, to, cp, cn, r.expo.scale, rp, rn)
+								k+1, d.key, set, p.Scale, to, cp, cn, r.expo.scale, rp, rn)
 						}
 					}
 				}
@@ -437,7 +437,7 @@ func run(c Case) ([]vk.Violation, vk.Info) {
 	}
 
 	// ---- (3) asynchronous instruments, (4) observable gauges ----
-	for i, d := range obsDefs {
+	for i, d := range w.odefs {
 		wantType := "sum"
 		if d.kind == oGauge {
 			wantType = "gauge"
@@ -454,7 +454,7 @@ func run(c Case) ([]vk.Violation, vk.Info) {
 				anyObs = cy.ObservedC
 			}
 			for set := range anyObs[i] {
-				if gapThenBack(streamKey{d.name, set}, k) {
+				if gapThenBack(streamKey{d.key, set}, k) {
 					reappearAsync = true
 				}
 			}
@@ -470,10 +470,10 @@ func run(c Case) ([]vk.Violation, vk.Info) {
 				if rd.sn == nil || rd.obs == nil {
 					continue
 				}
-				who, se, obs, prevObs := rd.who, rd.sn.Series[d.name], rd.obs[i], prevOf[rd.who]
+				who, se, obs, prevObs := rd.who, rd.sn.Series[d.key], rd.obs[i], prevOf[rd.who]
 				prevOf[who] = obs
 				if se != nil && se.Type != wantType {
-					bad("unexpected_data_type", "collection %d: %s reader reports %s as %s, want %s", k+1, who, d.name, se.Type, wantType)
+					bad("unexpected_data_type", "collection %d: %s reader reports %s as %s, want %s", k+1, who, d.key, se.Type, wantType)
 					continue
 				}
 				var pts map[int]*point
@@ -482,14 +482,14 @@ func run(c Case) ([]vk.Violation, vk.Info) {
 				}
 				for _, set := range keys(pts) {
 					if _, ok := obs[set]; !ok {
-						bad("async_unobserved_set_reported", "collection %d%s: %s reader reports %s set #%d = %v, which no callback observed in this cycle (observed: %v)", k+1, conc, who, d.name, set, pts[set].Val, obs)
+						bad("async_unobserved_set_reported", "collection %d%s: %s reader reports %s set #%d = %v, which no callback observed in this cycle (observed: %v)", k+1, conc, who, d.key, set, pts[set].Val, obs)
 					}
 				}
 				for _, set := range keys(obs) {
 					v := obs[set]
 					p := pts[set]
 					if p == nil {
-						bad("async_observed_set_missing", "collection %d%s: %s reader does not report %s set #%d, observed as %v in this cycle", k+1, conc, who, d.name, set, v)
+						bad("async_observed_set_missing", "collection %d%s: %s reader does not report %s set #%d, observed as %v in this cycle", k+1, conc, who, d.key, set, v)
 						continue
 					}
 					want, kind := v, "async_cumulative_value"
@@ -501,7 +501,7 @@ func run(c Case) ([]vk.Violation, vk.Info) {
 						negDelta = negDelta || want.neg()
 					}
 					if !p.Val.eq(want) {
-						bad(kind, "collection %d%s: %s reader reports %s set #%d = %v, want %v (observed %v, preceding cycle observed %v)", k+1, conc, who, d.name, set, p.Val, want, obs, prevObs)
+						bad(kind, "collection %d%s: %s reader reports %s set #%d = %v, want %v (observed %v, preceding cycle observed %v)", k+1, conc, who, d.key, set, p.Val, want, obs, prevObs)
 					}
 				}
 			}
@@ -517,8 +517,8 @@ func run(c Case) ([]vk.Violation, vk.Info) {
 			}
 			// did slot j really observe something in cycle k?
 			observed := false
-			for i := range obsDefs {
-				if !contains(w.c.Multi[j], i) {
+			for i := range w.odefs {
+				if !w.listed(j, i) {
 					continue
 				}
 				for _, e := range cy.Plan[i] {
@@ -619,7 +619,7 @@ func run(c Case) ([]vk.Violation, vk.Info) {
 	var hugeSync, hugeThenSmall, hugeAsync, hugeAsyncDelta bool
 	hugeKinds := map[string]bool{}
 	kindName := map[syncKind]string{kCounter: "counter", kUpDown: "updown", kHist: "explicit_hist", kExpo: "expo_hist", kGauge: "gauge"}
-	for i, d := range syncDefs {
+	for i, d := range w.sdefs {
 		sawHuge := map[int]int{} // set -> first cycle with a huge value
 		for k, cy := range w.cycles {
 			for set, vals := range cy.Recorded[i] {
@@ -643,7 +643,7 @@ func run(c Case) ([]vk.Violation, vk.Info) {
 				for _, v := range obs[i] {
 					if isHuge(v) {
 						hugeAsync = true
-						hugeAsyncDelta = hugeAsyncDelta || obsDefs[i].kind != oGauge
+						hugeAsyncDelta = hugeAsyncDelta || w.odefs[i].kind != oGauge
 					}
 				}
 			}
@@ -663,7 +663,7 @@ func run(c Case) ([]vk.Violation, vk.Info) {
 			for kk := k + 1; kk < len(w.cycles); kk++ {
 				failThenOK = failThenOK || !w.cycles[kk].Failed
 			}
-			for i := range obsDefs {
+			for i := range w.odefs {
 				if cy.ObservedD != nil && len(cy.ObservedD[i]) > 0 && w.failedAt(cy, i) == 2 {
 					failAfterObserving = true
 				}
@@ -676,10 +676,10 @@ func run(c Case) ([]vk.Violation, vk.Info) {
 			if cy.Burst == "c" {
 				obs = cy.ObservedC
 			}
-			for i := range obsDefs {
+			for i := range w.odefs {
 				burstAsync = burstAsync || len(obs[i]) > 0
 			}
-			for i := range syncDefs {
+			for i := range w.sdefs {
 				burstSync = burstSync || len(cy.Recorded[i]) > 0
 			}
 		}
@@ -725,26 +725,59 @@ func run(c Case) ([]vk.Violation, vk.Info) {
 		info.ClassIf(len(widthsByScope[0]) >= 2 || len(widthsByScope[1]) >= 2, "...in_one_scope")
 		info.ClassIf(len(widths) >= 2 && len(widthsByScope[0]) >= 1 && len(widthsByScope[1]) >= 1, "...across_two_scopes")
 	}
-	lateInst, lateScope := false, w.scopeAt[1] > 0
-	for i := range syncDefs {
+	lateInst, lateScope := false, false
+	for sc := 1; sc < len(w.scopeAt); sc++ {
+		lateScope = lateScope || w.scopeAt[sc] > 0
+	}
+	for i := range w.sdefs {
 		lateInst = lateInst || w.createdAt[i] > 0
 	}
 	info.ClassIf(lateInst, "instrument_created_after_a_collection")
 	info.ClassIf(lateScope, "scope_first_used_after_a_collection")
-	for i, d := range syncDefs {
+	for i, d := range w.sdefs {
 		used := false
 		for _, cy := range w.cycles {
 			used = used || len(cy.Recorded[i]) > 0
 		}
-		info.ClassIf(used, "inst:"+d.name)
+		if d.twinOf < 0 {
+			info.ClassIf(used, "inst:"+d.name)
+		}
 	}
-	for i, d := range obsDefs {
+	for i, d := range w.odefs {
 		used := false
 		for _, cy := range w.cycles {
 			used = used || (cy.ObservedD != nil && len(cy.ObservedD[i]) > 0) || (cy.ObservedC != nil && len(cy.ObservedC[i]) > 0)
 		}
-		info.ClassIf(used, "inst:"+d.name)
+		if d.twinOf < 0 {
+			info.ClassIf(used, "inst:"+d.name)
+		}
 	}
+	classifyTwins(w, &info)
+	var recAgain, regAgain bool
+	var spSync, spObs [4]bool
+	for _, op := range w.c.Ops {
+		switch op.K {
+		case "rec":
+			recAgain = recAgain || op.Again
+			if op.Sp >= 1 && op.Sp <= 3 {
+				spSync[op.Sp] = true
+			}
+		case "reg":
+			regAgain = regAgain || op.Again
+		case "plan":
+			for _, e := range op.Plan {
+				if e.Sp >= 1 && e.Sp <= 3 {
+					spObs[e.Sp] = true
+				}
+			}
+		}
+	}
+	info.ClassIf(recAgain, "record_through_instrument_obtained_once_more")
+	info.ClassIf(regAgain, "RegisterCallback_with_meter_and_instruments_obtained_once_more")
+	info.ClassIf(spSync[1], "sync_attrs_spelled:WithAttributes")
+	info.ClassIf(spObs[1], "observation_attrs_spelled:WithAttributeSet")
+	info.ClassIf(spSync[2] || spObs[2], "attrs_spelled:split_over_two_options")
+	info.ClassIf(spSync[3] || spObs[3], "attrs_spelled:duplicate_key_overridden_by_later_option")
 	return vs, info
 }
 
@@ -777,4 +810,133 @@ func diffSnap(a, b *snap) string {
 		return fmt.Sprintf("%d metrics then, %d now", len(a.Series), len(b.Series))
 	}
 	return "?"
+}
+
+// classifyTwins labels what the twin dimension of the case reached.
+func classifyTwins(w *world, info *vk.Info) {
+	rootO := func(i int) int {
+		if w.odefs[i].twinOf >= 0 {
+			return w.odefs[i].twinOf
+		}
+		return i
+	}
+	rootS := func(i int) int {
+		if w.sdefs[i].twinOf >= 0 {
+			return w.sdefs[i].twinOf
+		}
+		return i
+	}
+	var sameName, otherName, sameScope, byVersion, bySchema, byAttrs bool
+	place := func(scope, home int, unit, desc string) {
+		a, b := w.scopes[scope], w.scopes[home]
+		switch {
+		case scope == home:
+			sameScope = true
+		case a.Name == b.Name:
+			sameName = true
+			byVersion = byVersion || a.Version != b.Version
+			bySchema = bySchema || a.Schema != b.Schema
+			byAttrs = byAttrs || scopeID(ScopeSpec{Attrs: a.Attrs}) != scopeID(ScopeSpec{Attrs: b.Attrs})
+		default:
+			otherName = true
+		}
+	}
+	nS, nO := 0, 0
+	for _, d := range w.sdefs {
+		if d.twinOf >= 0 {
+			nS++
+			place(d.scope, syncDefs[d.twinOf].scope, d.unit, d.desc)
+		}
+	}
+	for _, d := range w.odefs {
+		if d.twinOf >= 0 {
+			nO++
+			place(d.scope, 0, d.unit, d.desc)
+		}
+	}
+	info.ClassIf(nS+nO > 0, "twins")
+	info.ClassIf(nS > 0, "twins:synchronous")
+	info.ClassIf(nO > 0, "twins:observable")
+	info.ClassIf(nO > 0 && w.c.TwinsFirst, "twins:observable_twin_created_before_the_original")
+	info.ClassIf(sameName, "twin_in_scope_of_same_name")
+	info.ClassIf(byVersion, "twin_in_scope_of_same_name:other_version")
+	info.ClassIf(bySchema, "twin_in_scope_of_same_name:other_schema_url")
+	info.ClassIf(byAttrs, "twin_in_scope_of_same_name:other_scope_attributes")
+	info.ClassIf(otherName, "twin_in_scope_of_other_name")
+	info.ClassIf(sameScope, "twin_in_same_scope_under_other_unit_or_description")
+	if nS+nO == 0 {
+		return
+	}
+	var pairObs, pairMulti, pairMultiSameSet, pairSameSet, pairOwn, strayKin, pairRec, pairRecSameSet, pairAppearDisappear bool
+	for _, cy := range w.cycles {
+		// observable kin observed in the same cycle, and how
+		type how struct {
+			sets  map[int]bool
+			multi map[int]bool // sets observed through a RegisterCallback callback
+		}
+		seen := map[int]how{}
+		obs := cy.ObservedD
+		if obs == nil {
+			obs = cy.ObservedC
+		}
+		for i := range w.odefs {
+			h := how{sets: map[int]bool{}, multi: map[int]bool{}}
+			for _, e := range cy.Plan[i] {
+				if _, ok := obs[i][e.Set]; !ok {
+					if e.Via >= 1 && e.Via-1 < len(cy.RanMulti) && cy.RanMulti[e.Via-1] {
+						// dropped observation: is a kin of i registered with that callback?
+						for i2 := range w.odefs {
+							if i2 != i && rootO(i2) == rootO(i) && w.listed(e.Via-1, i2) {
+								strayKin = true
+							}
+						}
+					}
+					continue
+				}
+				h.sets[e.Set] = true
+				if e.Via >= 1 {
+					h.multi[e.Set] = true
+				}
+			}
+			seen[i] = h
+		}
+		for i := range w.odefs {
+			for i2 := i + 1; i2 < len(w.odefs); i2++ {
+				if rootO(i) != rootO(i2) {
+					continue
+				}
+				a, b := seen[i], seen[i2]
+				if len(a.sets) > 0 && len(b.sets) > 0 {
+					pairObs = true
+					pairMulti = pairMulti || (len(a.multi) > 0 && len(b.multi) > 0)
+					pairOwn = pairOwn || (len(a.multi) < len(a.sets) && len(b.multi) < len(b.sets))
+					for s := range a.sets {
+						pairSameSet = pairSameSet || b.sets[s]
+						pairMultiSameSet = pairMultiSameSet || (a.multi[s] && b.multi[s])
+					}
+				}
+				pairAppearDisappear = pairAppearDisappear || (len(a.sets) > 0) != (len(b.sets) > 0)
+			}
+		}
+		for i := range w.sdefs {
+			for i2 := i + 1; i2 < len(w.sdefs); i2++ {
+				if rootS(i) != rootS(i2) || len(cy.Recorded[i]) == 0 || len(cy.Recorded[i2]) == 0 {
+					continue
+				}
+				pairRec = true
+				for s := range cy.Recorded[i] {
+					pairRecSameSet = pairRecSameSet || len(cy.Recorded[i2][s]) > 0
+				}
+			}
+		}
+	}
+	info.ClassIf(pairObs, "twins_both_observed_in_one_cycle")
+	info.ClassIf(pairOwn, "twins_both_observed_in_one_cycle:by_their_own_callbacks")
+	info.ClassIf(pairMulti, "twins_both_observed_in_one_cycle:through_RegisterCallback_callbacks")
+	info.ClassIf(pairSameSet, "twins_both_observed_in_one_cycle:same_attribute_set")
+	info.ClassIf(pairMultiSameSet, "twins_both_observed_in_one_cycle:same_attribute_set_through_RegisterCallback_callbacks")
+	info.ClassIf(pairAppearDisappear, "one_twin_observed_the_other_not_in_a_cycle")
+	info.ClassIf(strayKin, "callback_observes_unregistered_twin_of_an_instrument_it_is_registered_for")
+	info.ClassIf(pairRec, "sync_twins_both_recorded_in_one_cycle")
+	info.ClassIf(pairRecSameSet, "sync_twins_both_recorded_in_one_cycle:same_attribute_set")
 }
